@@ -24,7 +24,7 @@ ASSUMPTIONS = [
     'say whose block counts); what is judged is that every flag is restored once all blocks have exited',
     're-assigning the identical object may raise or not; only "the held object did not change" is required',
 ]
-REQUIRED = {'relock_failures_injected': 15, 'pending_references_offered_to_constants': 20, 'linked_constant_failed_deliveries': 20, 'forbidden_attempts': 3000, 'blocks': 500, 'blocks_raised': 100, 'flag_probes': 2000, 'ctor_constant_reference': 50,
+REQUIRED = {'class_relock_cases': 12, 'relock_failures_injected': 15, 'pending_references_offered_to_constants': 20, 'linked_constant_failed_deliveries': 20, 'forbidden_attempts': 3000, 'blocks': 500, 'blocks_raised': 100, 'flag_probes': 2000, 'ctor_constant_reference': 50,
             'ctor_constant_pending_reference': 50, 'library_attempts': 100, 'async_attempts': 100, 'observer_calls': 100, 'class_blocks': 50}
 
 _st = {}
@@ -356,10 +356,68 @@ def relock_case(idx, rng, P, rep):
     rep.case(('relock', len(names), body_raises), True)
 
 
+def class_relock_case(idx, rng, P, rep):
+    """edit_constant on a CLASS, with Parameter copies made inside the block (an instance built or first touched inside, a
+    subclass assigned to) and a watcher of the class-level Parameter's `constant` attribute that raises when the block locks
+    it again: the copies are locked again all the same."""
+    param = _st['param']
+    K = type(f'CR{idx}', (param.Parameterized,), dict(c=param.Parameter(default=Tok(), constant=True), d=param.Parameter(default=Tok(), constant=True)))
+    Sub = type(f'CR{idx}S', (K,), {})
+    old_inst = K()
+
+    def boom(event):
+        if event.new is True:
+            raise RuntimeError('watcher of the constant attribute fails')
+    failing = rng.random() < 0.7
+    w = K.param.watch(boom, 'c', what='constant') if failing else None
+    made = []
+    desc = dict(kind='class-relock', failing_watcher=failing)
+    try:
+        with param.parameterized.edit_constant(K):
+            if rng.random() < 0.7:
+                made.append(('instance built inside', K()))
+            if rng.random() < 0.6:
+                old_inst.c = Tok()
+                made.append(('existing instance assigned inside', old_inst))
+            if rng.random() < 0.6:
+                Sub.c = Tok()
+                made.append(('instance of a subclass assigned to inside', Sub()))
+            if not made:
+                made.append(('instance built inside', K()))
+    except RuntimeError:
+        rep.count('blocks_raised')
+    rep.count('blocks')
+    rep.count('class_relock_cases')
+    if w is not None:
+        K.param.unwatch(w)
+    made.append(('instance built afterwards', K()))
+    for label, o in made:
+        for n in ('c', 'd'):
+            rep.count('flag_probes')
+            rep.count('forbidden_attempts')
+            before = getattr(o, n)
+            try:
+                setattr(o, n, Tok())
+            except TypeError:
+                pass
+            else:
+                rep.violation('C14/rebind-allowed-outside-block/copy-made-inside-class-block', f'{label}: assignment to {n} accepted after '
+                              f'edit_constant({K.__name__}) exited' + (' through a failing watcher of c.constant' if failing else ''), case=desc)
+            if getattr(o, n) is not before:
+                pass
+    for C in (K, Sub):
+        if C.param.c.constant is not True or C.param.d.constant is not True:
+            rep.violation('C14/class-flag-not-restored', f'{C.__name__}: constant flags c={C.param.c.constant!r} d={C.param.d.constant!r} after the '
+                          f'block', case=desc)
+    rep.case(('class-relock', failing, tuple(l for l, _ in made)), True)
+
+
 def run_case(idx, rng, P, rep):
     param = _st['param']
     if rng.random() < 0.06:
         return library_case(idx, rng, P, rep)
+    if rng.random() < 0.03:
+        return class_relock_case(idx, rng, P, rep)
     if rng.random() < 0.03:
         return relock_case(idx, rng, P, rep)
     if rng.random() < 0.05:
